@@ -73,7 +73,7 @@ class Recorder:
         self.ev.append(kw)
 
 
-def injector(env, rec, arrivals, make_packet, target, on_arrival, origin=0):
+def injector(env, rec, arrivals, make_packet, target, on_arrival, origin=0, scale=1):
     """Hand in packets at scripted instants.
 
     arrivals: list of dicts with t (absolute instant) and src: 0 = each arrival is its own process whose timeout is
@@ -100,12 +100,12 @@ def injector(env, rec, arrivals, make_packet, target, on_arrival, origin=0):
 
     def single(i, a):
         if a["t"] > 0:
-            yield env.timeout(a["t"])
+            yield env.timeout(a["t"] * scale)        # scale: seconds per scripted tick
         hand_in(i, a)
 
     def chain(items):
         for i, a in items:
-            d = a["t"] - (env.now - origin)       # scripted instants count from the environment's initial time
+            d = a["t"] * scale - (env.now - origin)       # scripted instants count from the environment's initial time
             if d > 0:
                 yield env.timeout(d)
             hand_in(i, a)
